@@ -168,6 +168,18 @@ def step (st : DState) (line : String) : DState × String :=
       let s' := Bds.fastForward BdsLabel.ops hh len.toNat! (len.toNat! * c) acc.2
       (BdsLabel.stSrc s' :: acc.1, s')) ([BdsLabel.stSrc s0], s0)
     (st, "\n".intercalate r.1.reverse)
+  | ["bds.setupstates", h, len, m] =>   -- tuples of the key-generation leaf loop after every len leaves (Lean source)
+    let hh := h.toNat!
+    let s0 := Bds.newState BdsLabel.ops hh
+    let s0 := (List.range (hh - Bds.K)).foldl (fun s i =>
+      { s with treeHash := Bds.modTH BdsLabel.ops s.treeHash i (fun t => { t with h := i, completed := 1, stackUsage := 0 }) }) s0
+    let init : List BdsLabel.Lbl × List Nat × Nat × Bds.St BdsLabel.Lbl := (List.replicate (hh+1) BdsLabel.Lbl.zero, List.replicate (hh+1) 0, 0, s0)
+    let src (x : List BdsLabel.Lbl × List Nat × Nat × Bds.St BdsLabel.Lbl) : String :=
+      "([" ++ ", ".intercalate (x.1.map BdsLabel.lblSrc) ++ s!"], {x.2.1}, {x.2.2.1}, " ++ BdsLabel.stSrc x.2.2.2 ++ ")"
+    let r := (List.range m.toNat!).foldl (fun (acc : List String × (List BdsLabel.Lbl × List Nat × Nat × Bds.St BdsLabel.Lbl)) c =>
+      let x' := Bds.setupLoop BdsLabel.ops hh len.toNat! (len.toNat! * c) acc.2
+      (src x' :: acc.1, x')) ([src init], init)
+    (st, "\n".intercalate r.1.reverse)
   | ["bds.step"] =>
     match st.lbl with
     | none => (st, "bad-op")
